@@ -916,8 +916,9 @@ class TaskScenario(ScenarioData):
         seconds_taken_before = slot_duration_seconds - booked_seconds
 
         # Calculate the precise end time, rounded to nearest second
-        # (Gold standard uses second-level precision)
-        seconds_rounded = round(seconds_into_slot)
+        # (Gold standard uses second-level precision); a task with work is never reported with
+        # zero length, however little of the slot it needs
+        seconds_rounded = max(1, round(seconds_into_slot))
 
         if forward:
             # For forward scheduling, end time is offset from where this task's portion begins
